@@ -126,6 +126,7 @@ type Status struct {
 	Opts    string   `json:"opts"`
 	Error   string   `json:"error,omitempty"`
 	Files   []string `json:"files,omitempty"`
+	Deps    []string `json:"deps,omitempty"` // corpus files this one imports (same runtime)
 }
 
 func cmdFM(args []string) {
@@ -156,7 +157,7 @@ func cmdFM(args []string) {
 			if *opts != "" {
 				param += "," + *opts
 			}
-			st := Status{Runtime: rtn, File: spec.Name, Opts: param}
+			st := Status{Runtime: rtn, File: spec.Name, Opts: param, Deps: spec.Deps}
 			resp, err := runPlugin(*plugin, corpus.BuildWithDeps(spec, rt), param)
 			switch {
 			case err != nil:
